@@ -677,6 +677,9 @@ class Script:
             out.extend(self.ghost_before.get(pi, []))
             if pi in self.transform:
                 used, arg = self.transform[pi]
+                if norm(cur_line) != norm(P[pi]) and set(used) & {'R7', 'Rvec', 'Rref', 'Rtup'}:
+                    # the binding `let X = ARR[verif_i];` that follows the clauses names the pinned iterable
+                    raise Undecided("a rewritten loop header changed: %r" % cur_line.strip())
                 new = apply_transform(cur_line, used, arg)
                 if norm(cur_line) == norm(P[pi]):
                     new = self.A[self.exec_of[pi]]
